@@ -18,7 +18,7 @@ PROPERTY = 'C13'
 LEVEL = 'model_checking'
 EXHAUSTIVE = True
 MENU = dict(per_recipient=True, boom=True, reply_ok=False)
-BODY8 = b'Subject: caf\xc3\xa9\r\nX-Bin: \xe9\r\n\r\nline one\r\n.dot line\r\n\xff\xfe 8-bit\r\n'
+BODY8 = b'Subject: caf\xc3\xa9\r\nX-Bin: \xe9\r\n\r\nline one\r\n.dot line\r\n\xff\xfe 8-bit\r\nbare\nline feed and bare\rcarriage return\r\nlast\r\n'
 
 RULE = ('queue world, failure histories: all relay outcome histories (whole-message ok/temp/perm/exception, every per-recipient '
         'mapping) with <= dd non-default outcomes over <= 3 attempts x schedules with <= d deviations; bounce messages are '
@@ -67,6 +67,10 @@ def configs(tier, seed):
     cfgs.append(dict(backend='redis', backoff='never', n=2, messages=0, prestored=1, redis_yields=['hmget'], d=3, dd=2, menu=MENU))
     cfgs.append(dict(backend='dict', backoff='never', n=2, messages=1, harness_wait=True, slow_ops=['remove'], d=3, dd=2, menu=MENU,
                      script=[['enqueue', 0], ['announce', 0]]))
+    # a bounded relay pool that is full while a second message is enqueued and announced by the storage: one attempt, one bounce
+    cfgs.append(dict(backend='dict', backoff='never', n=1, harness_wait=True, relay_pool=1, d=2, dd=2, menu=MENU,
+                     script=[['enqueue', 0], ['enqueue', 1], ['announce', 1]]))
+    cfgs.append(dict(backend='redis', backoff='never', n=1, relay_pool=1, d=2, dd=2, menu=MENU, script=[['enqueue', 0], ['enqueue', 1]]))
     # failure replies produced by the real relay classes (incl. the library's pre-defined replies for lost
     # connections and timeouts), two messages in one process
     for rk in ('smtp', 'lmtp', 'pipe'):
